@@ -397,6 +397,20 @@ def x_zero(e, st, fr, a, name):
     return 0
 
 
+def x_lifetime(e, st, fr, a, name):
+    """llvm.lifetime.start/end(size, ptr): the object's bytes become indeterminate (a read after the end of the
+    variable's scope - e.g. by another thread that was handed its address - is then seen as uninitialised)"""
+    p = a[1]
+    if p.__class__ is Ptr and p.obj and p.off.__class__ is int:
+        o = st.objs.get(p.obj)
+        n = a[0]
+        if o is not None and o.live and o.data is not None and o.kind == 'stack':
+            if n.__class__ is not int or n < 0 or n > o.size - p.off: n = o.size - p.off
+            o = st.wobj(p.obj)
+            o.data[p.off:p.off + n] = [None] * n
+    return None
+
+
 def x_none(e, st, fr, a, name):
     return None
 
@@ -731,7 +745,7 @@ def x_trap(e, st, fr, a, name):
 
 
 PREFIX = [
-    ('llvm.lifetime.', x_none), ('llvm.dbg.', x_none), ('llvm.experimental.noalias', x_none), ('llvm.assume', x_none),
+    ('llvm.lifetime.', x_lifetime), ('llvm.dbg.', x_none), ('llvm.experimental.noalias', x_none), ('llvm.assume', x_none),
     ('llvm.invariant.', x_none), ('llvm.memcpy.', x_memcpy), ('llvm.memmove.', x_memcpy), ('llvm.memset.', x_memset),
     ('llvm.fshl.', x_fsh), ('llvm.fshr.', x_fsh), ('llvm.bswap.', x_bswap), ('llvm.ctpop.', x_ctpop), ('llvm.ctlz.', x_ctlz),
     ('llvm.cttz.', x_cttz), ('llvm.abs.', x_abs), ('llvm.smax.', _minmax('smax')), ('llvm.smin.', _minmax('smin')),
